@@ -8,6 +8,24 @@ NAMES = [
 ]
 
 
+FIND_ATTRS = ["kani::requires(verif_kani::valid_edges(&self.range))",
+              "kani::ensures(|r| verif_kani::find_post(&self.range, x, r))"]
+ARB = "\n#[cfg(kani)]\nimpl kani::Arbitrary for SampleOutOfRangeError {\n    fn any() -> Self {\n        SampleOutOfRangeError\n    }\n}\n"
+
+
+def modular_job(tier):
+    """Function contract on the macro-generated find (proof_for_contract) and add proved from that contract only
+    (stub_verified): add's proof no longer depends on LEN through the binary search, (LEN = 100 still exceeds 900 s in CBMC because of the 100-element symbolic arrays, so LEN in {3, 10})."""
+    obs = []
+    for lens, names, unwind in (([3], [("find_contract", "find.function_contract", "find")], 8),
+                                ([3, 10], [("add_via_find_contract", "add.via_find_contract", "add (find through its contract)")], 14)):
+        j = hist_job("C06", lens, names, unwind=unwind, timeout=1500, harness_timeout=900, modular=True)
+        j.append(F, ARB)
+        j.contract_in_macro(F, "define_histogram_common", {"LEN": "3"}, "Histogram", None, "find", FIND_ATTRS)
+        obs += j.run()
+    return obs
+
+
 def large_len_corpus():
     """BOUNDED stand-in for the large configurations (LEN = 33, 100): find(x) against a linear-scan oracle for every
     edge, its floating-point neighbours, midpoints, +-inf, NaN and -0.0 on uniform, non-uniform, infinite-edged and
@@ -76,6 +94,7 @@ def run(tier, seed):
     lens = [1, 2, 3, 4] if tier == "quick" else [1, 2, 3, 4, 10]
     job = hist_job("C06", lens, NAMES, unwind=14)
     obs = job.run()
+    obs += modular_job(tier)
     obs += large_len_corpus()
     if tier == "quick":
         # the exported Histogram10 (the crate's own instantiation): find/add against the bin contract as well
@@ -93,6 +112,7 @@ def run(tier, seed):
                                      "Histogram::range_min", "Histogram::range_max"],
         "source_files": [F, FC, "src/lib.rs"],
         "assumptions": [
+            "modular part: find carries a Kani function contract (requires valid edges; ensures the half-open-bin postcondition), proved by proof_for_contract for LEN = 3; add is proved from that contract alone (stub_verified) for LEN in {3, 10}",
             "LEN = 33 and LEN = 100: BOUNDED linear-scan corpus only in the quick tier (find.linear_scan_corpus, listed under `bounded`); the complete Kani proof for LEN = 100 is in the thorough tier",
             "find.iff_bin_unique additionally for LEN = 10 (average::Histogram10) in the quick tier",
             "configurations: LEN in %s (complete per LEN: edges are LEN+1 fully symbolic f64 constrained only by validity, "
